@@ -2,12 +2,13 @@
 // OpenSSL itself (on a thread of its own), so that the client can do what QSslSocket never does: send its request and
 // then only a TLS close_notify (the TCP connection stays open) while it waits for the answer, half-close the TCP
 // connection, or split the request over records of its own choosing.  The same exchange is made over plain TCP.
-//   case ::= ( request ending delayMs (recordLen ..) expect200 [surplus] )      surplus: bytes the client sends beyond its request
+//   case ::= ( request ending delayMs (recordLen ..) expect200 [surplus [slowMs]] )      surplus: bytes the client sends beyond its request
 //     ending: 0 the client just waits; 1 close_notify after the request, TCP left open; 2 close_notify, then the writing
 //             side of the TCP connection is shut down; 3 the writing side is shut down without a close_notify
 //     delayMs: the handler answers that long after it was called (0: at once, from inside process())
 //     recordLen..: the request is written in pieces of these lengths (one TLS record each), the rest in one piece
-//   obs  ::= ( handshakeCompleted (handlerCalls status body end) (handlerCalls status body end) )   end: 0 orderly, 1 reset, 2 time-out      TLS first, plain second
+//   obs  ::= ( handshakeCompleted (handlerCalls status body end notified stalled) .. )   end: 0 orderly, 1 reset, 2 time-out; notified: sum of
+//            write-progress notifications for path /notify (-1 otherwise); stalled: the server thread stayed away from its event loop for > 700 ms      TLS first, plain second
 #include <QCoreApplication>
 #include <QElapsedTimer>
 #include <QFile>
@@ -20,6 +21,7 @@
 #include <qhttpengine/server.h>
 #include <qhttpengine/socket.h>
 #include <atomic>
+#include <memory>
 #include <thread>
 #include <vector>
 #include <arpa/inet.h>
@@ -42,11 +44,24 @@ class DelayedHandler : public Handler
 public:
     DelayedHandler(int delayMs, QObject *p) : Handler(p), delay(delayMs) {}
     int calls = 0;
+    qint64 notified = -1;      // path /notify...: the sum of the bytesWritten notifications when the 3000-byte body had been reported (or 400 ms later)
 protected:
     void process(Socket *socket, const QString &) override
     {
         ++calls;
         QPointer<Socket> s(socket);
+        if (socket->path().startsWith("/notify")) {
+            // the application waits for the write-progress notifications before it closes: they must add up to the body it wrote
+            auto sum = std::make_shared<qint64>(0);
+            auto done = std::make_shared<bool>(false);
+            auto finish = [this, s, sum, done]() { if (*done) return; *done = true; notified = *sum; if (s) s->close(); };
+            QObject::connect(socket, &Socket::bytesWritten, this, [sum, finish](qint64 n) { *sum += n; if (*sum >= 3000) finish(); });
+            QTimer::singleShot(400, this, finish);
+            socket->setHeader("Content-Length", "3000");
+            socket->write(QByteArray(1000, 'a'));
+            QTimer::singleShot(5, this, [s]() { if (s) s->write(QByteArray(2000, 'b')); });
+            return;
+        }
         bool big = socket->path().startsWith("/big");
         auto answer = [s, big]() {
             if (!s) return;
@@ -60,7 +75,8 @@ protected:
     int delay;
 };
 
-struct ClientResult { bool handshake = false; QByteArray got; int end = 2; };      // end: 0 orderly end of stream, 1 error (reset), 2 nothing was read / time-out
+struct ClientResult { bool handshake = false; QByteArray got; int end = 2; };
+static int g_slowMs = 0;        // the client pauses that long after every read (a slow reader)      // end: 0 orderly end of stream, 1 error (reset), 2 nothing was read / time-out
 
 // blocking client on its own thread; [tls] false: the same over plain TCP (close_notify has no counterpart there)
 void rawClient(quint16 port, bool tls, const QByteArray &request, int ending, const std::vector<int> &pieces, qint64 surplus, ClientResult *out, std::atomic<bool> *done)
@@ -112,6 +128,7 @@ void rawClient(quint16 port, bool tls, const QByteArray &request, int ending, co
                     break;
                 }
                 out->got.append(buf, n);
+                if (g_slowMs > 0) ::usleep(useconds_t(g_slowMs) * 1000);
                 if (out->got.size() > (16 << 20)) break;
             }
         }
@@ -133,7 +150,13 @@ Val oneExchange(bool tls, const QByteArray &request, int ending, int delayMs, co
     std::atomic<bool> done(false);
     std::thread t(rawClient, server.serverPort(), tls, request, ending, pieces, surplus, &res, &done);
     QElapsedTimer timer; timer.start();
-    while (!done.load() && timer.elapsed() < 9000) QCoreApplication::processEvents(QEventLoop::AllEvents, 5);
+    qint64 last = 0, maxGap = 0;      // the longest time the server's thread spent without returning to its event loop
+    while (!done.load() && timer.elapsed() < 9000) {
+        QCoreApplication::processEvents(QEventLoop::AllEvents, 5);
+        qint64 now = timer.elapsed();
+        maxGap = qMax(maxGap, now - last);
+        last = now;
+    }
     t.join();
     for (int i = 0; i < 5; ++i) QCoreApplication::processEvents(QEventLoop::AllEvents, 5);
     if (ending >= 2) res.end = 0;          // after the client's own half-close how the stream ends is the TLS library's business: not compared
@@ -142,7 +165,7 @@ Val oneExchange(bool tls, const QByteArray &request, int ending, int delayMs, co
     int i = res.got.indexOf("\r\n\r\n");
     QByteArray body = i >= 0 ? res.got.mid(i + 4) : QByteArray();
     if (body.size() > 4096) body = "len=" + QByteArray::number(body.size());
-    return Val::List({Val::Int(handler.calls), Val::Int(status), Val::Bytes(body), Val::Int(res.end)});
+    return Val::List({Val::Int(handler.calls), Val::Int(status), Val::Bytes(body), Val::Int(res.end), Val::Int(handler.notified), Val::Bool(maxGap > 700)});
 }
 }
 
@@ -154,6 +177,7 @@ static Val run_tlsraw(const Val &c)
     for (auto &p : c.at(3).l) pieces.push_back(int(p.asInt()));
     bool hs = false;
     qint64 surplus = c.size() > 5 ? c.at(5).asInt() : 0;
+    g_slowMs = c.size() > 6 ? int(c.at(6).asInt()) : 0;
     Val a = oneExchange(true, request, ending, delayMs, pieces, surplus, &hs);
     Val b = oneExchange(false, request, ending, delayMs, pieces, surplus, nullptr);
     return Val::List({Val::Bool(hs), a, b});
